@@ -1,5 +1,5 @@
 (* C02 - Acknowledged statements survive a crash between statements.
-   Statements only (proofs: Proofs/Crash{Base,Pages,Redo,Log,Main}.v).
+   Statements only (proofs: Proofs/Crash{Base,Pages,Redo,Log,Main}.v; section E: Proofs/MovesFromRep.v).
 
    The durable system is `sys` = (page cache `mem`, data file `disk`, log `wal`) of Model/Engine.v;
    `run_events init_sys evs` runs ANY finite history of statements (CREATE TABLE, multi-row INSERT,
@@ -30,8 +30,20 @@
         could create two rows with one offset, and recovery then rewrote the wrong row; the engine
         now refuses INSERT / UPDATE / DELETE on the catalog tables - /repo c7d1b36, modelled by
         `is_sys_table` - so only CREATE TABLE and root moves write offsets, always fresh ones.)
-        (H2) is kept as an explicit hypothesis here; it is not derived from a catalog invariant
-        in this file. *)
+        (H2) is an explicit hypothesis of the theorems of sections B-D (`hist_ok`), which also admit
+        the C03 / C04 crash events. For histories of statements, flushes and crash-restarts (the
+        quantifier of C02) it is NO LONGER ASSUMED: section E derives it from C01's refinement
+        invariant `Rep` plus `SelfOk` (Proofs/MovesFromRep.v: `rep_moves_ok`; both invariants hold
+        after every such history, `hist_ok1_rep`) and restates the main theorems under `hist_ok1`
+        = (H1) + literals are Go values + allocation frontier <= 2^63: C02_recovery_restores_noH2,
+        C02_recover_idempotent_noH2, C02_ids_never_reused_noH2, C02_crash_cycles_noH2,
+        C02_later_statements_partial_noH2, C02_clean_shutdown_noH2, C02_recovery_total_noH2.
+        Still assuming (H2): C02_do_redo (one statement on arbitrary Good stores; use
+        C02_moves_from_rep to discharge it in a store satisfying Rep and SelfOk) and the `hist_ok`
+        versions with EvCrashInLog / EvTornFlush events (C03 / C04). `Rep` alone does not give (H2):
+        it leaves the offset stored in sys_pages' own, never-maintained catalog row unconstrained;
+        `SelfOk` (that row holds the first page's offset, every other root lies above) closes the
+        gap and is an invariant of every reachable store. *)
 From Coq Require Import List NArith ZArith String.
 From Mkdb Require Import Model.Engine Proofs.TreeProofs Proofs.StoreInv Proofs.CrashBase Proofs.CrashPages
   Proofs.CrashRedo Proofs.CrashLog Proofs.CrashMain Proofs.CrashPrefix Proofs.CrashHist Proofs.CrashCongr.
@@ -240,4 +252,116 @@ Proof.
   destruct (run_events init_sys ex_f11) as [fin os] eqn:E.
   vm_compute in E. inversion E; subst. eexists _, _, _. split; [reflexivity|].
   split; [repeat constructor|]. split; [vm_compute; reflexivity|]. vm_compute. discriminate.
+Qed.
+
+(* ---- E. the same theorems WITHOUT (H2) ----
+   (H2) is derived from C01's refinement invariant (Proofs/MovesFromRep.v): in every store that
+   represents a database of the specification (`Rep`, whose catalog part says that distinct tables
+   have distinct root offsets, all different from the page-table root) and in which sys_pages' own,
+   never-maintained catalog row still holds the offset of the first page of the file while every
+   other root lies above it (`SelfOk`), the row found by table name is the ONLY live row holding the
+   old root offset. Both invariants hold initially and survive every statement satisfying (H1),
+   every flush and every crash-restart, so `hist_ok1` (no H2) implies `hist_ok`.
+   `hist_ok1` per statement: (H1) stmt_atomic; RefineMain.stmt_ok (literals are Go values: integers
+   within int64, strings shorter than 2^32 bytes); the allocation frontier after the statement is
+   <= OFFMAX = 2^63 (file offsets are int64). Events: statements, flushes, crash-restarts - the
+   whole quantifier of C02; EvCrashInLog / EvTornFlush (C03 / C04) are not admitted by hist_ok1.
+   `hist_ok1b` is the same as a boolean, with (H1) replaced by Atomic.fails_early (the failing
+   statement fails before its first page change - the condition of C01's theorems). *)
+From Mkdb Require Import Proofs.RefineRep Proofs.RefineCat Proofs.RefineMain Proofs.MovesFromRep.
+
+(* (H2) in one store *)
+Theorem C02_moves_from_rep : forall s d st,
+  Rep s d -> SelfOk s -> RefineMain.stmt_ok st = true -> nextFree (e_store (run_stmt s st)) <= OFFMAX ->
+  stmt_moves_ok s st.
+Proof. exact rep_moves_ok. Qed.
+Print Assumptions C02_moves_from_rep.
+
+Theorem C02_hyp_without_H2 : forall evs, hist_ok1 init_sys evs -> hist_ok init_sys evs.
+Proof. exact hist_ok1_sound. Qed.
+Print Assumptions C02_hyp_without_H2.
+
+Theorem C02_hyp_boolean : forall evs, hist_ok1b init_sys evs = true -> hist_ok1 init_sys evs.
+Proof. intros evs. apply hist_ok1b_sound. Qed.
+Print Assumptions C02_hyp_boolean.
+
+(* along such a history - crash-restarts included - the cache always represents a database of
+   the specification *)
+Theorem C02_rep_along_history : forall evs y os,
+  hist_ok1 init_sys evs -> run_events init_sys evs = (SOk y, os) ->
+  SelfOk (mem y) /\ exists d, Rep (mem y) d.
+Proof. exact hist_ok1_rep. Qed.
+Print Assumptions C02_rep_along_history.
+
+Theorem C02_recovery_restores_noH2 : forall evs y os,
+  hist_ok1 init_sys evs -> run_events init_sys evs = (SOk y, os) ->
+  exists y', recover y = Ok y' /\ seq (mem y') (mem y) /\ abs (mem y') = abs (mem y) /\
+             disk y' = mem y' /\ wal y' = wal y.
+Proof. intros evs y os H R. exact (C02_recovery_restores evs y os (hist_ok1_sound evs H) R). Qed.
+Print Assumptions C02_recovery_restores_noH2.
+
+Theorem C02_recover_idempotent_noH2 : forall evs y os y1,
+  hist_ok1 init_sys evs -> run_events init_sys evs = (SOk y, os) ->
+  recover y = Ok y1 -> recover y1 = Ok y1.
+Proof. intros evs y os y1 H R. exact (C02_recover_idempotent evs y os y1 (hist_ok1_sound evs H) R). Qed.
+Print Assumptions C02_recover_idempotent_noH2.
+
+Theorem C02_ids_never_reused_noH2 : forall evs y os y1,
+  hist_ok1 init_sys evs -> run_events init_sys evs = (SOk y, os) -> recover y = Ok y1 ->
+  Forall (fun t => Forall (fun k => k <= lastKey (mem y1)) (tree_keys t)) (forest (mem y1)) /\
+  Forall (fun t => Forall (fun n => t_lsn n < nextLSN (mem y1)) (nodes t)) (forest (mem y1)).
+Proof. intros evs y os y1 H R. exact (C02_ids_never_reused evs y os y1 (hist_ok1_sound evs H) R). Qed.
+Print Assumptions C02_ids_never_reused_noH2.
+
+(* the recovered system is again reached by a history satisfying the H2-free hypothesis *)
+Theorem C02_crash_cycles_noH2 : forall evs y os,
+  hist_ok1 init_sys evs -> run_events init_sys evs = (SOk y, os) ->
+  exists y1 os1, run_events init_sys (evs ++ [EvCrash]) = (SOk y1, os1) /\
+                 hist_ok1 init_sys (evs ++ [EvCrash]) /\ recover y = Ok y1.
+Proof.
+  intros evs y os H R.
+  destruct (C02_crash_cycles evs y os (hist_ok1_sound evs H) R) as (y1 & os1 & A & _ & C).
+  exists y1, os1. split; [exact A|]. split; [exact (hist_ok1_snoc evs init_sys y os EvCrash H R I) | exact C].
+Qed.
+Print Assumptions C02_crash_cycles_noH2.
+
+Theorem C02_later_statements_partial_noH2 : forall evs y os y' sts,
+  hist_ok1 init_sys evs -> run_events init_sys evs = (SOk y, os) -> recover y = Ok y' ->
+  lastKey (mem y') = lastKey (mem y) -> nextLSN (mem y') = nextLSN (mem y) ->
+  snd (run_stmts (mem y') sts) = snd (run_stmts (mem y) sts) /\
+  abs (fst (run_stmts (mem y') sts)) = abs (fst (run_stmts (mem y) sts)) /\
+  seq (fst (run_stmts (mem y') sts)) (fst (run_stmts (mem y) sts)).
+Proof. intros evs y os y' sts H. exact (C02_later_statements_partial evs y os y' sts (hist_ok1_sound evs H)). Qed.
+Print Assumptions C02_later_statements_partial_noH2.
+
+Theorem C02_clean_shutdown_noH2 : forall evs y os,
+  hist_ok1 init_sys evs -> run_events init_sys evs = (SOk y, os) -> recover (do_flush y) = Ok (do_flush y).
+Proof. intros evs y os H. exact (C02_clean_shutdown evs y os (hist_ok1_sound evs H)). Qed.
+Print Assumptions C02_clean_shutdown_noH2.
+
+Theorem C02_recovery_total_noH2 : forall evs y os,
+  hist_ok1 init_sys evs -> run_events init_sys evs = (SOk y, os) ->
+  exists y1, step y EvCrash = (SOk y1, None).
+Proof. intros evs y os H. exact (C02_recovery_total evs y os (hist_ok1_sound evs H)). Qed.
+Print Assumptions C02_recovery_total_noH2.
+
+(* ---- non-vacuity of the H2-free hypothesis: ex_history (CREATE TABLE, 8 inserts, flush, a 3-row
+   insert that splits the root leaf - a root move -, UPDATE, DELETE, a failing INSERT, crash, 10
+   inserts, flush, 2 inserts, crash) satisfies hist_ok1b, hence hist_ok1 ---- *)
+Example C02_noH2_nonvacuous : hist_ok1b init_sys ex_history = true.
+Proof. vm_compute. reflexivity. Qed.
+
+(* the 3-row insert (event 10) really moves the root of "t": the catalog offset of "t" changes *)
+Example C02_noH2_root_move :
+  exists y0 os0 y1 os1,
+    run_events init_sys (firstn 10 ex_history) = (SOk y0, os0) /\
+    run_events init_sys (firstn 11 ex_history) = (SOk y1, os1) /\
+    hist_ok1 init_sys (firstn 11 ex_history) /\
+    rel_offset (mem y0) "t" <> rel_offset (mem y1) "t".
+Proof.
+  destruct (run_events init_sys (firstn 10 ex_history)) as [f0 os0] eqn:E0.
+  destruct (run_events init_sys (firstn 11 ex_history)) as [f1 os1] eqn:E1.
+  vm_compute in E0. vm_compute in E1. inversion E0; subst. inversion E1; subst.
+  eexists _, _, _, _. split; [reflexivity|]. split; [reflexivity|].
+  split; [apply hist_ok1b_sound; vm_compute; reflexivity|]. vm_compute. discriminate.
 Qed.
